@@ -46,7 +46,7 @@ struct McRec {
   uint32_t step;
 };
 
-#define MC_MAX_RECS 49152
+#define MC_MAX_RECS 262144
 #define MC_MAX_COVER 48
 
 struct McSlot {
